@@ -17,14 +17,6 @@ func (a *ResponseOptimizerPlanner) Process(ctx *shared.PlannerContext,
 			return nil
 		},
 		OnAfterEntriesSlice: func(entries []shared.LogEntry, c chan []shared.LogEntry) error {
-			if size < 3000 {
-				return nil
-			}
-			for _, ents := range fpMap {
-				c <- ents
-			}
-			fpMap = make(map[uint64][]shared.LogEntry)
-			size = 0
 			return nil
 		},
 		OnAfterEntries: func(c chan []shared.LogEntry) error {
